@@ -122,7 +122,7 @@ def _apply_chain(case, base):
         w = make_probe(np.eye(len(case["shape"]), dtype=int).tolist(), [0] * len(case["shape"]), shape=case["shape"][::-1])
     for st in case["steps"]:
         if st[0] == "slice":
-            w = SlicedLowLevelWCS(w, Q.dec_items(st[1]))
+            w = SlicedLowLevelWCS(w, Q.np_ints(case["key"], Q.dec_items(st[1])))     # (integers as numpy integers in every fourth case)
         else:
             f = [float(Fr(*x)) for x in st[1]][::-1]
             o = [float(Fr(*x)) for x in st[2]][::-1]
